@@ -3,6 +3,7 @@
 //! 2 = harness error.  Violations are *data*; the driver (bin/check) decides exit codes.
 
 mod common;
+mod fence;
 mod sched;
 mod stages;
 mod util;
